@@ -195,6 +195,11 @@ func genCrash(c *Ctx) error {
 	}
 	rshapes := []rshape{
 		{"replica-incremental", func(v, _ *vprimary) (string, *vprimary) { return v.randomCommit(4), v }},
+		// the transaction cuts pages off the end: the replica writes page 1 (new size in the header)
+		// and only then truncates the file
+		{"replica-incremental-shrink", func(v, _ *vprimary) (string, *vprimary) {
+			return v.commit(max(1, len(v.img)-2), map[int]bool{}), v
+		}},
 		{"replica-snapshot-behind", func(v, _ *vprimary) (string, *vprimary) {
 			v.randomCommit(4)
 			v.randomCommit(4)
@@ -221,8 +226,11 @@ func genCrash(c *Ctx) error {
 			do := func(op string) string { c.Count("op." + strings.SplitN(op, " ", 2)[0]); return cs.Do(op) }
 			v := newVPrimary(r, ps)
 			do("open replica")
-			v.randomCommit(6)
+			v.commit(r.Range(4, 7), map[int]bool{})
 			v.randomCommit(4)
+			if len(v.img) < 4 {
+				v.commit(len(v.img)+3, map[int]bool{})
+			}
 			do("sapply " + v.snapshot())
 			fork := v.clone()
 			for i, k := 0, r.Range(2, 4); i < k; i++ {
